@@ -173,6 +173,12 @@ def check_formatters(R, rule):
     for cons, path in rows:
         vw = cons_view(cons, meta)
         emp = view_get(vw, lambda k: terms().get(k) is not None and is_call(strip_refs(terms()[k]), name='is_empty') and is_pkg(terms()[k]))
+        if emp is None:
+            # `match package { "" => .., _ => .. }` / `package == ""`: a comparison of the package with the empty string
+            for sub_, op_, v_ in cons:
+                tm_ = terms().get(sub_)
+                if v_ == '' and tm_ is not None and is_pkg(tm_):
+                    emp = True if op_ == '==' else (False if op_ == '!=' else emp)
         val = mirlib.simplify(fs.ret_on_path(path))
         fs._path = {bb_: i_ for i_, bb_ in enumerate(path)}
         try:
@@ -248,7 +254,11 @@ def check_formatters(R, rule):
                     continue
                 for ix in idxs:
                     if ix < len(t_['args']):
-                        o_ = strip_refs(resolve_env(tb, fb, fb.origin(t_['args'][ix])))
+                        o_ = strip_refs(mirlib.simplify(resolve_env(tb, fb, fb.origin(t_['args'][ix]))))
+                        # the flag may travel in a struct of options built from the parameters (`opts.emit_package`)
+                        if o_[0] == 'field' and strip_refs(o_[1])[0] == 'agg' and o_[2] in (strip_refs(o_[1])[1].get('fields') or []):
+                            a_ = strip_refs(o_[1])
+                            o_ = strip_refs(a_[2][a_[1]['fields'].index(o_[2])])
                         if o_[0] == 'arg':
                             out.add(o_[1])
                         else:
